@@ -49,6 +49,7 @@ func runC15(c *Ctx) {
 		"(R2) the values placed in the per-connection context slots are created per connection: the type map is a fresh pgtype.NewMap() result (pgtype.Map memoises encode/scan plans without synchronisation), the parameter maps are fresh (C12.R3), the remote address comes from the connection; (R3) statement / portal caches are per connection (C07.R1 rules re-run), the per-connection reader and writer are created in serve and never handed to another goroutine, and variables captured by the accept loop's goroutines are allocated per iteration and not touched by the spawner afterwards. " +
 		"'Transcript equals the solo run' follows from this absence of shared state; handler-owned state is out of scope and the observed equality of transcripts is not something static analysis decides."
 	R.Assumptions = []string{"types in the safe table are safe for concurrent use as documented (sync.*, atomic.*, *slog.Logger, *tls.Config, net.Listener, *regexp.Regexp)", "user callbacks manage their own state"}
+	R.Explanation += " (R1) also: no atomic write, sync.Once, sync.Map or sync.Pool operation on a Server field or package variable from connection code (locks, the wait group and atomic loads are shutdown coordination); no element store into a slice the function did not allocate itself (handler-supplied tables are read-only)."
 	R.Trusted = []string{"go/types + go/ssa", "CHA call graph (over-approximates the connection scope)"}
 	G := c.connectionScope()
 	for fn := range G {
@@ -82,6 +83,95 @@ func runC15(c *Ctx) {
 			}
 		}
 	}
+	// synchronised shared state is still shared: connection code may take the server's locks and register with its
+	// wait group (shutdown coordination) and read atomics, but an atomic write, sync.Once, sync.Map or sync.Pool on a
+	// Server field or package variable makes one connection's behaviour depend on what other connections did
+	nSync := 0
+	for fn := range G {
+		for _, ci := range core.Calls(fn) {
+			callee := core.StaticCallee(ci)
+			if callee == nil || callee.Pkg == nil || callee.Signature.Recv() == nil || len(ci.Common().Args) == 0 {
+				continue
+			}
+			pp := callee.Pkg.Pkg.Path()
+			if pp != "sync" && pp != "sync/atomic" {
+				continue
+			}
+			recv := ci.Common().Args[0]
+			where := ""
+			if fr, ok := core.FieldOfAddr(recv); ok && fr.Is(pkWire, "Server", fr.Name) {
+				where = "Server." + fr.Name
+			} else if g, ok := recv.(*ssa.Global); ok {
+				where = "package variable " + g.Name()
+			} else {
+				continue
+			}
+			nSync++
+			rt := core.NamedOf(callee.Signature.Recv().Type())
+			tn := ""
+			if rt != nil {
+				tn = rt.Obj().Name()
+			}
+			okOp := false
+			switch {
+			case pp == "sync/atomic":
+				okOp = callee.Name() == "Load"
+			case tn == "Mutex" || tn == "RWMutex" || tn == "WaitGroup":
+				okOp = true
+			}
+			R.Check(okOp, "C15.R1", fkey(fn)+":shared-sync-state:"+where+"."+callee.Name(), c.at(ci), "connection code uses server-wide synchronisation objects only for shutdown coordination (locks, wait group, reading atomics)", where+"."+callee.Name()+" ("+pp+"."+tn+")", where+"."+callee.Name()+" modifies server-wide state from connection code ("+pp+"."+tn+"): race-free, but what one connection observes now depends on what other connections did before")
+		}
+	}
+	R.Floor("C15.R1", "operations of connection code on server-wide sync objects", nSync, 3)
+	// element stores into slices the function did not allocate itself: the backing array belongs to the caller
+	// (handler-supplied column tables, format lists, configured slices) and may be shared between connections
+	nElem := 0
+	for fn := range G {
+		if !c.P.InPkg(fn, "wire") {
+			continue
+		}
+		for _, b := range fn.Blocks {
+			for _, in := range b.Instrs {
+				st, ok := in.(*ssa.Store)
+				if !ok {
+					continue
+				}
+				addr := st.Addr
+				for {
+					if fa, isFA := addr.(*ssa.FieldAddr); isFA {
+						if _, isIdx := fa.X.(*ssa.IndexAddr); isIdx {
+							addr = fa.X
+							continue
+						}
+					}
+					break
+				}
+				ia, ok := addr.(*ssa.IndexAddr)
+				if !ok {
+					continue
+				}
+				if _, isSlice := ia.X.Type().Underlying().(*types.Slice); !isSlice {
+					continue
+				}
+				nElem++
+				var srcs []ssa.Value
+				leaves(ia.X, map[ssa.Value]bool{}, &srcs)
+				for _, src := range srcs {
+					if c.freshSlice(src, 3) {
+						continue
+					}
+					root, p := pathOf(src)
+					if prm, isParam := root.(*ssa.Parameter); isParam && p != "" {
+						if n := core.NamedOf(prm.Type()); n != nil && perConnectionOwner[n.Obj().Name()] {
+							continue // a field of an object that exists once per connection / statement call
+						}
+					}
+					R.Fail("C15.R1", fkey(fn)+":element-store-into-foreign-slice:"+p, c.at(st), "connection code writes only to slices it allocated itself (never into a caller-supplied backing array, which may be shared by all connections)", sprintf("store into an element of %s%s, which %s did not allocate: a handler-supplied or configured table shared between connections is modified (data race; one connection's output depends on another's)", rootDescr(root), p, fname(fn)))
+				}
+			}
+		}
+	}
+	R.Floor("C15.R1", "element stores into slices inspected", nElem, 3)
 	R.OK("C15.R1", "no-shared-stores", "-", "connection code stores only to per-connection objects (no store to a Server field, package variable or configuration-time captured variable)", sprintf("%d stores in %d functions inspected", nStores, len(G)))
 
 	// ---------- R1b: reference-typed Server fields and globals are only read in G
@@ -474,4 +564,64 @@ func (c *Ctx) freshPerCall(v ssa.Value, depth int) (bool, string) {
 		return true, "fresh on every path"
 	}
 	return false, "not a per-connection allocation"
+}
+
+// freshSlice reports whether slice value v is allocated by the current function (make, a slice of a local
+// array, append onto such a slice, or the result of a callee of package wire that returns a fresh slice).
+func (c *Ctx) freshSlice(v ssa.Value, depth int) bool {
+	switch x := v.(type) {
+	case *ssa.MakeSlice:
+		return true
+	case *ssa.Slice:
+		if a, ok := x.X.(*ssa.Alloc); ok {
+			_ = a
+			return true
+		}
+		return c.freshSlice(x.X, depth)
+	case *ssa.Phi:
+		for _, e := range x.Edges {
+			if e != v && !c.freshSlice(e, depth) {
+				return false
+			}
+		}
+		return true
+	case *ssa.Call:
+		if core.BuiltinName(&x.Call) == "append" {
+			return c.freshSlice(x.Call.Args[0], depth) || core.IsNilConst(x.Call.Args[0])
+		}
+		if depth > 0 {
+			if f := core.StaticCallee(x); f != nil && c.P.InScope(f) && len(f.Blocks) > 0 {
+				for _, r := range returns(f) {
+					if len(r.Results) == 0 || !c.freshSlice(forwardLoad(r.Results[0]), depth-1) {
+						return false
+					}
+				}
+				return true
+			}
+		}
+	case *ssa.Const:
+		return x.Value == nil
+	}
+	return false
+}
+
+func rootDescr(v ssa.Value) string {
+	switch x := v.(type) {
+	case *ssa.Parameter:
+		return "parameter " + x.Name()
+	case *ssa.Global:
+		return "package variable " + x.Name()
+	case *ssa.FreeVar:
+		return "captured variable " + x.Name()
+	case nil:
+		return "value"
+	}
+	return v.Name()
+}
+
+// perConnectionOwner lists the library types whose instances are created per connection (or per statement
+// call / COPY operation) and never shared: a slice held in one of their fields is connection-local storage.
+var perConnectionOwner = map[string]bool{
+	"Session": true, "dataWriter": true, "CopyReader": true, "BinaryCopyReader": true,
+	"Reader": true, "Writer": true, "DefaultStatementCache": true, "DefaultPortalCache": true,
 }
